@@ -343,6 +343,39 @@ func runC15(c *Check) {
 			c.Bad("C15-R3", "ExecuteTxs ⟂ returns-the-root-computed-in-this-call", fnName(exec), p.Pos(exec.Pos()), "a success return hands back "+bad+", not the root computed from the datastore in this call: the root then depends on what the executor remembered (restarts, re-initialisation), not only on the executed transactions", nil)
 		}
 	}
+	// ---- R2 (cont.): execution does not look at bookkeeping. ExecuteTxs reads none of the keys
+	// that are written outside the transaction batch (initialisation marker, genesis root,
+	// finalised height), and it reports success only after its batch was committed: whether and
+	// how a block is applied must not depend on when the node finalised or initialised.
+	{
+		g := BuildECFG(p, exec, ExpandOpts{MaxDepth: 1, Stop: func(f *ssa.Function) bool { return f == root }})
+		var reads []string
+		for _, n := range g.Select(func(n *Node) bool { return dsCall(n, "Get") || dsCall(n, "Has") }) {
+			if k := keyName(ArgTerm(n, 1)); k != "" && W[k] != "" {
+				reads = append(reads, k+" @"+p.InstrPos(n.In))
+			}
+		}
+		sort.Strings(reads)
+		if len(reads) == 0 {
+			c.OK("C15-R2", "ExecuteTxs ⟂ reads-no-bookkeeping-key", fnName(exec), p.Pos(exec.Pos()), "none of the keys written outside the transaction batch is read while executing", true)
+		} else {
+			c.Bad("C15-R2", "ExecuteTxs ⟂ reads-no-bookkeeping-key", fnName(exec), p.Pos(exec.Pos()), "execution reads "+strings.Join(reads, ", ")+", a key written outside the transaction batch (by finalisation / initialisation): what a block does to the state then depends on when the node finalised or initialised, not only on the transactions", nil)
+		}
+		commitOK := g.Select(ErrNilEdge(func(t *Term) bool { return t.Op == "invoke" && strings.HasSuffix(t.Name, ".Commit") }))
+		if len(commitOK) == 0 {
+			c.Bad("C15-R2", "ExecuteTxs ⟂ success-only-after-commit", fnName(exec), p.Pos(exec.Pos()), "the result of the batch Commit is not checked", nil)
+		} else {
+			// a block without transactions has nothing to commit
+			txsName := exec.Params[2].Name()
+			noTxs := g.Select(EdgeWhere(func(t *Term, pol bool, n *Node) bool {
+				t, pol = normFact(t, pol)
+				return pol && t.Op == "bin" && t.Name == "==" && t.Args[0].String() == "len("+txsName+")" && t.Args[1].Op == "const" && strings.HasPrefix(t.Args[1].Name, "0")
+			}))
+			c.Decide("C15-R2", "ExecuteTxs ⟂ success-only-after-commit", fnName(exec), p.InstrPos(commitOK[0].In), "every success return follows a successful Commit of the block's batch (or the block has no transactions)",
+				"ExecuteTxs can report success without having committed the block's transactions (the block is silently not applied)", g,
+				g.PathAvoiding([]*Node{g.Entry}, g.SuccessExits(), orPred(nodeSet(commitOK), nodeSet(noTxs))))
+		}
+	}
 	// ---- R2
 	{
 		g := BuildECFG(p, exec, ExpandOpts{MaxDepth: 2, Stop: func(f *ssa.Function) bool { return f == root }})
@@ -488,7 +521,7 @@ func runC15(c *Check) {
 		}
 	}
 	c.MinInstances("C15-R1", 5)
-	c.MinInstances("C15-R2", 3)
+	c.MinInstances("C15-R2", 5)
 	c.MinInstances("C15-R3", 4)
 	c.MinInstances("C15-R4", 2)
 }
